@@ -53,6 +53,17 @@ Theorem c14_merlin_line_roundtrip : forall l rest, forallb m_char_ok l = true ->
 Proof. exact merlin_line_roundtrip. Qed.
 Print Assumptions c14_merlin_line_roundtrip.
 
+(* the column formatter of the detokenizer keeps every column a separate blank-delimited word, in order, for every
+   choice of column widths and every column length (no two columns fuse, none splits) *)
+Theorem c14_merlin_format_keeps_columns : forall widths cols, Forall (fun c => ~ In 32 c) cols ->
+  words (fmt_line widths cols) = filter nonnil cols.
+Proof. exact merlin_format_keeps_columns. Qed.
+Print Assumptions c14_merlin_format_keeps_columns.
+
+Theorem c14_merlin_format_label_column : forall widths r, exists t, fmt_cols widths 0 ([] :: r) = 32 :: t.
+Proof. exact merlin_format_label_column. Qed.
+Print Assumptions c14_merlin_format_label_column.
+
 (* --- token tables (generated from the source on every run) --- *)
 Theorem c14_applesoft_tables_inverse :
   NoDup (map snd as_tok_map) /\ NoDup (map fst as_detok_map) /\ NoDup (map fst as_tok_map) /\ NoDup (map snd as_detok_map)
